@@ -39,6 +39,11 @@ pub struct Strategy {
     pub seed: u64,
     #[serde(default)]
     pub choices: Vec<usize>,
+    /// kind "dfs1": run exactly one schedule, the one this DFS stack (allowed-alternative indices)
+    /// leads to, and report the next stack -- the driver restarts the process for every schedule
+    /// (cold-start exploration: `Once` registrations cannot be undone inside a process)
+    #[serde(default)]
+    pub stack: Vec<usize>,
 }
 fn two() -> usize {
     2
@@ -62,6 +67,10 @@ pub struct ConcJob {
     /// log at most this many distinct outcomes per program (0 = all)
     #[serde(default)]
     pub max_log: usize,
+    /// fixtures that are NOT warmed up: their first call (all `Once` registrations) happens inside the
+    /// concurrent section
+    #[serde(default)]
+    pub nowarm: Vec<String>,
 }
 fn hang_default() -> u64 {
     20000
@@ -264,15 +273,16 @@ pub fn cmd_conc(args: &[String]) -> i32 {
     let mut distinct_finals: std::collections::HashSet<String> = std::collections::HashSet::new();
     let mut rng = StdRng::seed_from_u64(job.strategy.seed);
     let mut verdict = "ok".to_string();
+    let mut next_stack: Option<Vec<usize>> = None;
     'programs: for prog in &job.programs {
         let script = MScript {
             id: prog.id,
             fixtures: job.fixtures.clone(),
             threads: 1,
-            nowarm: vec![],
+            nowarm: job.nowarm.clone(),
             ops: vec![],
         };
-        let mut ex = Explorer { stack: Vec::new() };
+        let mut ex = Explorer { stack: job.strategy.stack.iter().map(|c| (*c, 0usize)).collect() };
         let mut runs_here = 0usize;
         let mut logged_here = 0usize;
         loop {
@@ -323,7 +333,7 @@ pub fn cmd_conc(args: &[String]) -> i32 {
                 if let Some(p) = same {
                     allowed.push(p);
                 }
-                if same.is_none() || preemptions < bound || kind != "dfs" {
+                if same.is_none() || preemptions < bound || (kind != "dfs" && kind != "dfs1") {
                     for p in 0..v.enabled.len() {
                         if Some(p) != same {
                             allowed.push(p);
@@ -461,6 +471,12 @@ pub fn cmd_conc(args: &[String]) -> i32 {
                             }
                         }
                     }
+                    if job.strategy.kind == "dfs1" {
+                        if !st.is_empty() {
+                            next_stack = Some(st.iter().map(|x| x.0).collect());
+                        }
+                        break;
+                    }
                     if st.is_empty() || runs_here >= job.strategy.max_schedules.max(1) {
                         break;
                     }
@@ -473,7 +489,8 @@ pub fn cmd_conc(args: &[String]) -> i32 {
     println!(
         "{}",
         json!({"verdict": verdict, "schedules": schedules, "finished": finished, "logged": logged,
-               "distinct_outcomes": distinct_finals.len(), "programs": job.programs.len(), "traces": logged, "events": 0})
+               "distinct_outcomes": distinct_finals.len(), "programs": job.programs.len(), "traces": logged, "events": 0,
+               "next_stack": next_stack})
     );
     // after a deadlock / hang the managed threads are parked forever: leave without joining them
     std::process::exit(0);
